@@ -10,5 +10,7 @@ CONSTANTS
 SPECIFICATION NSpec
 INVARIANT PresentScanLaw
 INVARIANT ShapeLaw
+INVARIANT ZScanLaw
+INVARIANT ParsedLaw
 INVARIANT Emit
 CHECK_DEADLOCK FALSE
